@@ -68,6 +68,9 @@ def run(rep, tier):
              ("L", "listings: for every directory tree of the bound (<= 2 entries per directory, depth <= 2, up to 4 files; names, prefix and marker symbolic; "
                    "keys ordered by an uninterpreted total order) list_objects_v2 returns exactly the '/'-joined keys that have the prefix and lie after "
                    "the marker, each once, in ascending order, with KeyCount = their number", C18sym.listings),
+             ("T", "store transitions: on every successful path of put / copy / delete the mutating effects on non-temporary paths are exactly the "
+                   "transition's (object, its metadata and internal-info files; the copy reads the named source); get / head have none; a failing get / "
+                   "head / delete / copy has none", C18sym.transitions),
              ("S", "side files follow the object: every successful put / copy / completed upload writes or removes the object's user-metadata file, "
                    "delete_object removes it, fs::copy never has source == destination", C18sym.side_files))
     for tag, name, fn in parts:
